@@ -175,7 +175,19 @@ def all_known_signatures():
         return set()
 
 
-def run_case(case, step_oracle, *, final_oracle=None, nontrivial=None, extra_classes=None, sim_kw=None, guarded=True, txn_oracle=None):
+def known_signatures_of(prop):
+    import json
+    import os
+    from vlib.runner import VERIF
+    try:
+        return {e['signature'] for e in json.load(open(os.path.join(VERIF, 'known_findings.json')))['findings']
+                if e.get('status') == 'known' and e.get('property') == prop}
+    except Exception:
+        return set()
+
+
+def run_case(case, step_oracle, *, final_oracle=None, nontrivial=None, extra_classes=None, sim_kw=None, guarded=True, txn_oracle=None,
+             prop=None):
     """step_oracle(world, prev_view, cur_view, op, result) -> list of failures (may be async)."""
     from .world import World
     from vlib.aiosched import new_loop, close_loop
@@ -186,8 +198,10 @@ def run_case(case, step_oracle, *, final_oracle=None, nontrivial=None, extra_cla
 
     async def go():
         kw = dict(n_tokens=cfg.get('n_tokens', 2), seed_draws=cfg.get('draws') or [0])
-        if guarded and not case.get('unguarded'):
-            kw['guards'] = all_known_signatures()
+        if guarded:
+            # an "unguarded" case lifts only the guards of findings listed for THIS property (so that it re-finds them);
+            # findings that belong to other properties stay excluded by construction
+            kw['guards'] = all_known_signatures() - (known_signatures_of(prop) if case.get('unguarded') else set())
         kw.update(sim_kw or {})
         w = World(**kw)
         out['cur_w'] = w
@@ -266,7 +280,7 @@ def standard_module(prop, profile, step_oracle, nontrivial, rule, *, quick_n=25,
     """Build plan/run_shard/replay for a history property."""
     def check(case):
         return run_case(case, step_oracle, final_oracle=final_oracle, nontrivial=nontrivial, extra_classes=extra_classes,
-                        txn_oracle=txn_oracle)
+                        txn_oracle=txn_oracle, prop=prop)
 
     def plan(tier):
         n = quick_n if tier == 'quick' else thorough_n
